@@ -112,8 +112,8 @@ ASSUMPTIONS = ['the analytic renderer below (pixel-centre sampling of I(r_ell)) 
                'geometric step 0.1); every other block uses float64 C-ordered arrays; Fortran-ordered / strided / masked '
                'images, int64 / uint32 / float16 and integer galaxies fainter than 0.08 of the dtype range are not enumerated',
                'integrmode nearest_neighbor is enumerated only in the block dtype; its tolerances are calibrated on the tree '
-               'with proposed_fixes/C20-nearest-neighbor-floor.diff applied (the pinned integrator reads the floor pixel: '
-               'centre bias +0.5 px, reported as accuracy|x0:nn / y0:nn), centre margin 4 instead of 10 (see MARGIN_NN_CENTRE); '
+               'with the repair C20-nearest-neighbor-floor (52eeda2; before it the integrator read the floor pixel: centre '
+               'bias +0.5 px, keys accuracy|x0:nn / y0:nn), centre margin 4 instead of 10 (see MARGIN_NN_CENTRE); '
                'build_ellipse_model is judged for float64 images and integrmode bilinear / mean / median only',
                'at eps 0.8 fewer than half of the sectors of any isophote up to sma 50 hold > 6 pixels: no isophote of '
                'the lattice is classified area-integrated there (they are judged in the general area class)']
@@ -629,11 +629,11 @@ CAL = {
     (0.5, 'area'): (1.5e-1, 9.1e-3, 5.8e-3, 3.5e-2),
     (0.8, 'bil'): (6.8e-2, 1.1e-2, 6.7e-3, 7.0e-2),
     (0.8, 'area'): (1.6e-1, 7.8e-3, 3.9e-3, 4.3e-2),
-    # integrmode 'nearest_neighbor' (block 'dtype' only: large frame, sma 27.3 ... 48.3, exponential law x 2.5).  The
-    # pinned tree cannot calibrate this class: its integrator takes the pixel int(x), int(y) -- the floor, not the
-    # nearest pixel -- so every sample is displaced by (-0.5, -0.5) px on average and every fitted centre is off by
-    # +0.5 px in x and y (measured 0.50 ... 0.56 px; proposed_fixes/C20-nearest-neighbor-floor.diff).  Calibrated on
-    # the tree with that repair: 48 fits per eps (PA 30 / 120, centre frac / int, init shape / centre, seeds 0, 1, 2):
+    # integrmode 'nearest_neighbor' (block 'dtype' only: large frame, sma 27.3 ... 48.3, exponential law x 2.5).  Up to
+    # d3130d4 the integrator took the pixel int(x), int(y) -- the floor, not the nearest pixel -- so every sample was
+    # displaced by (-0.5, -0.5) px on average and every fitted centre was off by +0.5 px in x and y (measured 0.50 ...
+    # 0.56 px; found by this block, repaired by proposed_fixes/C20-nearest-neighbor-floor.diff = 52eeda2).  Calibrated
+    # on the repaired tree: 48 fits per eps (PA 30 / 120, centre frac / int, init shape / centre, seeds 0, 1, 2):
     (0.2, 'nn'): (8.1e-2, 2.5e-3, 1.5e-2, 4.5e-3),
     (0.5, 'nn'): (1.1e-1, 2.7e-3, 5.4e-3, 8.7e-3),
 }
